@@ -44,7 +44,10 @@ META = {
         "the order facts (renaming after apply_force_field and the charge guard, before print_pqr) hold for the table "
         "generated from the current main.py. Proved for ALL atoms/atom lists over the writer's string model: "
         "--keep-chain changes column 22 only, renaming columns 13-20 only, the numeric tokens of the --whitespace line "
-        "are the numeric column slices of the plain line (within C08's column-capacity guard), line i is atom i with "
+        "are the numeric column slices of the plain line - stated under the explicit capacity guard num_ok (every "
+        "numeric field fits its columns with a separating blank: |coordinate| <= 9999.999 / >= -999.999, charge > -10, "
+        "radius < 10); atoms outside that guard are covered by run pairs only (structures straddling x = -1000 and "
+        "y = +10000 in the option lattice) -, line i is atom i with "
         "serial i+1 under every option combination. Proved for ALL record lists: drop_water is exactly deletion of the "
         "water records and commutes with any line-wise parser (its two hypotheses about the parser are checked on the "
         "real pdb reader + main.drop_water for every generated record kind). Proved over C02's model of set_termini/"
@@ -272,6 +275,38 @@ def struct_dna(rng):
     chain = rng.choice("BDN")
     dna = B.build_strand(seq, chain=chain)
     return {"id": f"dna-{''.join(seq)}@{chain}", "atoms": dna, "pdb": B.to_pdb(dna), "chains": {chain}, "kind": "dna"}
+
+
+def translate_pdb(text, dx=0.0, dy=0.0, dz=0.0):
+    """Shift every ATOM/HETATM record. A shifted value that needs nine characters with three
+    decimals (<= -1000.000 or >= 10000.000) is written with two decimals so that the INPUT stays
+    inside its eight columns; what the writer makes of such a coordinate is the subject."""
+    out = []
+    for ln in text.splitlines(keepends=True):
+        if ln.startswith(("ATOM", "HETATM")) and len(ln) >= 54:
+            vals = (float(ln[30:38]) + dx, float(ln[38:46]) + dy, float(ln[46:54]) + dz)
+            flds = []
+            for v in vals:
+                s = f"{v:8.3f}"
+                if len(s) > 8:
+                    s = f"{v:8.2f}"
+                if len(s) > 8:
+                    raise ValueError(f"coordinate {v} does not fit eight columns")
+                flds.append(s)
+            ln = ln[:30] + "".join(flds) + ln[54:]
+        out.append(ln)
+    return "".join(out)
+
+
+def struct_straddling(st, axis):
+    """`st` moved so that it straddles x = -1000 (axis 'x') or y = +10000 (axis 'y'): some atoms
+    fit the writer's eight coordinate columns, their neighbours need nine."""
+    k = "xyz".index(axis)
+    cs = [float(ln[30 + 8 * k:38 + 8 * k]) for ln in st["pdb"].splitlines() if ln.startswith(("ATOM", "HETATM"))]
+    mid = (min(cs) + max(cs)) / 2.0
+    shift = (-1000.0 if axis == "x" else 10000.0) - mid
+    text = translate_pdb(st["pdb"], **{"d" + axis: shift})
+    return {"id": f"{st['id']}@{axis}{'-1000' if axis == 'x' else '+10000'}", "atoms": st.get("atoms"), "pdb": text, "chains": st["chains"], "kind": st["kind"] + "-9col"}
 
 
 def struct_cif(st):
@@ -508,7 +543,7 @@ def lattice_compare(st, base_atoms, res, opts):
     try:
         atoms = parse_pqr(res["pqr_text"], "whitespace" in opts)
     except ValueError as e:
-        return "unparseable", str(e)
+        return "whitespace-token-count", f"{e}; the base run's first atom line is {base_atoms[0]['num'] if base_atoms else None}"
     return compare_atoms(
         base_atoms,
         atoms,
@@ -597,6 +632,12 @@ def search_lattice(ctx, structs, high):
                 continue
             runs = [([o], None) for o in FORMAT_OPTS if o != "ffout"] + [(["ffout"], s) for s in FFS] + with_schemes([list(FORMAT_OPTS)])
             run_lattice(ctx, st, ff, runs, "single")
+    # coordinates that need nine characters (<= -1000.000, >= 10000.000): the writer clips them to eight
+    # columns (C08-F3, identical in every option set on the unchanged tree); option sets are compared with
+    # each other, never with the input
+    for st9, ff in ((struct_straddling(S0, "x"), "PARSE"), (struct_straddling(S0, "y"), rot), (struct_straddling(Srand, "x"), rng.choice(FFS))):
+        subs = all_subsets() if (high or ctx.thorough) else [[o] for o in FORMAT_OPTS] + [["whitespace", "keep_chain"], ["whitespace", "ffout"], ["whitespace", "pdb_output", "apbs_input"], list(FORMAT_OPTS)]
+        run_lattice(ctx, st9, ff, with_schemes(subs), "9col")
     # CIF input (print_pqr_header_cif, '#' trailer)
     cif = struct_cif(S0)
     subs = all_subsets() if (high or ctx.thorough) else [[o] for o in FORMAT_OPTS] + [list(FORMAT_OPTS)]
@@ -1108,7 +1149,8 @@ def proof_stage_on_own_table(ctx, info):
 def run(ctx):
     ctx.cov["rule"] = (
         "real main_driver runs on builder structures (fixed 7-residue peptide with 5 titratable residues + 3 waters, a seeded "
-        "random 5-7 residue peptide + waters, a seeded 3-5 nt DNA strand, CIF rendering of the first): base run vs run with a "
+        "random 5-7 residue peptide + waters, a seeded 3-5 nt DNA strand, CIF rendering of the first, copies translated to straddle x = -1000 and y = +10000 where a coordinate needs nine "
+        "characters): base run vs run with a "
         "subset of {--whitespace,--keep-chain,--include-header,--pdb-output,--apbs-input,--ffout=<scheme>}; full 2^6 lattice on "
         "4 (structure, force field) pairs (all 18 in thorough / after a break), one-option-at-a-time + all six --ffout schemes + "
         "all-on for the other pairs; --drop-water vs text-level deletion of HOH/WAT records x 6 force fields; --neutraln/"
